@@ -27,7 +27,21 @@ _BUILDER_ASSUME = [
     "version selection uses go-versions as restated in Bundle/Versions.v (validated by the versions stream)",
 ]
 
+STREAMS["ignore"] = {
+    "name": "ignore", "corr": "Corr.RunIgnore",
+    "selftest": {"good": 'CExcl [mkRule (s2l "**/a") false false] (s2l "x/a") (true, false)', "bad": 'CExcl [mkRule (s2l "**/a") false false] (s2l "x/ab") (true, false)'},
+}
+
 PROPS = {
+    "C03": {
+        "streams": ["ignore"],
+        "theorems": "C03_compile_correct (pattern->regexp translation = segment-wise glob specification, all well-formed patterns x all newline-free paths), C03_negations_after_exact/_over, C03_last_match_wins, C03_dominating_sound, C03_prune_eq_filter (all trees), C03_defaults",
+        "assumptions": [
+            "modelled, not verified: Go's regexp on the expression shapes rule.compile emits (restated as Ignore/Rules.tmatch), text/scanner, bufio.ScanLines, strings.TrimSpace (ASCII); validated by the ignore stream through the verif hooks",
+            "theorem 1 covers patterns of the documented language (each ** a whole segment, no character class, no backslash); character classes [a-z], backslash escapes and non-ASCII patterns are compared by the oracle/implementation only",
+            "rule_ok (a rule value ending in ** compiles to tokens ending in .*) is a hypothesis of theorems 4-5; it is evaluated (rule_okb) on every documented-language rule file of the stream",
+        ],
+    },
     "C08": {
         "streams": ["bundle"],
         "theorems": "C08_build_is_closure (work-list soundness + completeness + cache consistency for all worlds, Add sequences and fuel, by invariants over step/drain/run_ops), C08_registry_resolution_is_cache_independent, C08_relative_inside_package",
